@@ -20,6 +20,7 @@
 #include "internal.h"
 #include "port.h"
 #include "slice.h"
+#include "verif.h"
 
 /* LRU cache implementation
  *
@@ -272,6 +273,8 @@ lru_shard_remove(lru_handle_t *e) {
 
 static void
 lru_shard_ref(lru_shard_t *lru, lru_handle_t *e) {
+  LCDB_ACC("lru", lru, 1);
+
   if (e->refs == 1 && e->in_cache) { /* If on lru->list, move to lru->in_use. */
     lru_shard_remove(e);
     lru_shard_append(&lru->in_use, e);
@@ -281,6 +284,8 @@ lru_shard_ref(lru_shard_t *lru, lru_handle_t *e) {
 
 static void
 lru_shard_unref(lru_shard_t *lru, lru_handle_t *e) {
+  LCDB_ACC("lru", lru, 1);
+
   assert(e->refs > 0);
 
   e->refs--;
